@@ -2,7 +2,10 @@ module verifharness
 
 go 1.24.2
 
-require github.com/octohelm/gengo v0.0.0
+require (
+	github.com/octohelm/gengo v0.0.0
+	golang.org/x/tools v0.32.0
+)
 
 require (
 	github.com/go-courier/logr v0.3.2 // indirect
@@ -11,7 +14,6 @@ require (
 	golang.org/x/mod v0.24.0 // indirect
 	golang.org/x/sync v0.13.0 // indirect
 	golang.org/x/text v0.24.0 // indirect
-	golang.org/x/tools v0.32.0 // indirect
 	mvdan.cc/gofumpt v0.8.0 // indirect
 )
 
